@@ -618,7 +618,55 @@ class Sem:
         if ft == T.PYOBJ:
             return st.env.get("$f:%s.%s" % (obj.t, field), PyV("opaque", (dcls, field)))
         key = (dcls, field)
-        return SV("(select %s %s)" % (self.heap_term(st, key, ft), obj.t), ft)
+        return SV("(select %s %s)" % (self.peel_heap(self.heap_term(st, key, ft), obj.t), obj.t), ft)
+
+    # ---- read-over-write at the term level (keeps specifications about old objects syntactically stable
+    # across allocations): sound because a reference that exists at entry is allocated at entry (python
+    # semantics, stated as a hypothesis by verify_contract) and a constructor result is unallocated before.
+    def known_distinct(self, a, b):
+        cx = self.cx
+        if a == b:
+            return False
+        entry = cx.__dict__.get("entry_refs", ())
+        new = cx.__dict__.get("new_refs", ())
+        return (a in entry and b in new) or (a in new and b in entry) or (a in new and b in new)
+
+    @staticmethod
+    def split_store(t):
+        """'(store A n v)' -> (A, n, v) or None"""
+        if not t.startswith("(store "):
+            return None
+        parts, depth, cur = [], 0, []
+        for ch in t[7:-1]:
+            if ch == " " and depth == 0:
+                parts.append("".join(cur)); cur = []
+                continue
+            if ch == "(":
+                depth += 1
+            elif ch == ")":
+                depth -= 1
+            cur.append(ch)
+        parts.append("".join(cur))
+        return tuple(parts) if len(parts) == 3 else None
+
+    def peel_heap(self, arr, o):
+        cx = self.cx
+        defs = cx.__dict__.get("heap_defs", {})
+        entry = cx.__dict__.get("entry_refs", ())
+        for _ in range(200):
+            d = defs.get(arr)
+            if d is None:
+                sp = self.split_store(arr)
+                if sp is None:
+                    return arr
+                d = ("store", sp[0], sp[1])
+            if d[0] == "store" and self.known_distinct(o, d[2]):
+                arr = d[1]
+            elif d[0] == "alloc-havoc" and o in entry:
+                arr = d[1]
+            else:
+                return arr
+        return arr
 
     def heap_term(self, st, key, ft):
         if key not in st.heap:
@@ -658,6 +706,10 @@ class Sem:
 
     def set_heap(self, st, key, term, ft):
         st, t = self.name_term(st, term, "(Array Int %s)" % self.cx.sorts.sort(ft), "H_%s_%s" % (key[0], key[1].strip("<>_")))
+        if t != term:
+            sp = self.split_store(term)
+            if sp is not None:
+                self.cx.__dict__.setdefault("heap_defs", {})[t] = ("store", sp[0], sp[1])
         return st.with_heap(key, t)
 
     def dict_self(self, obj, st):
@@ -665,7 +717,7 @@ class Sem:
         kk, vv = sc.dict_of
         mt = T.Map(kk, vv)
         key = (sc.cls, "<dict>")
-        return SV("(select %s %s)" % (self.heap_term(st, key, mt), obj.t), mt)
+        return SV("(select %s %s)" % (self.peel_heap(self.heap_term(st, key, mt), obj.t), obj.t), mt)
 
     def dict_self_write(self, obj, newmap, st):
         sc = self.schema_for(obj.ty.args[0])
